@@ -116,6 +116,17 @@ class MsgProp:
             payload, fill = ais.armor(bits[:len(bits) - trim] if trim else bits)
             if len(payload) > 380:
                 continue
+            # the declared fill count and the padding bits are the sender's: a count below the padding leaves padding
+            # bits in the message, a count above it clears message bits, and padding bits need not be zero - what the
+            # decoder gets is what the statement of C03 says for (payload, count), whatever the length class
+            if fill and rng.random() < 0.4:
+                pl = bytearray(payload)
+                v = ais.sixbit(pl[-1]) | (rng.getrandbits(fill) if rng.random() < 0.5 else (1 << fill) - 1)
+                pl[-1] = ais.armor_char(v)
+                payload = bytes(pl)
+            if rng.random() < 0.25:
+                fill = rng.randrange(6)
+            bs = ais.spec_unarmor(payload, fill)
             r = rng.random()
             if r < 0.35:
                 bad = rng.choice([b"F0000000", b"I", b"1", b"5000", b"8", b"0", b"1~~~", payload[:3] if len(payload) > 3 else b"1"])
@@ -152,7 +163,7 @@ class MsgProp:
                                   tagblock=rng.choice([None, b"c:%d*00" % i, b"g:%d-%d-%d" % (rng.choice([1, i + 1, n]), rng.choice([1, n, 9]), rng.randrange(1, 99)),
                                                        b"g:1-1-5*00"]))
                     # (a fill count on a non-final fragment is legal and means nothing: only the last one's counts)
-                    fl_i = fill if i == n - 1 else (rng.randrange(6) if vary and rng.random() < 0.5 else 0)
+                    fl_i = fill if i == n - 1 else (rng.randrange(6) if rng.random() < 0.5 else 0)
                     ops.append(L(ais.sentence(pc, fill=fl_i, nf=n, fn=i + 1, mid=mid, **kw), 0, 1))
                     if i < n - 1 and rng.random() < 0.4:
                         # a repeated or stray fragment: rejected, and must leave nothing behind
@@ -185,7 +196,7 @@ class MsgProp:
                                                   talker=rng.choice([b"AI", b"AB"]), report=rng.choice([b"VDM", b"VDO"]),
                                                   mid=rng.choice([None, None, mid, 7])), 0, rng.randrange(2)))
             # what unarmoring hands to the decoder: ceil(6 * chars / 8) bytes, the declared fill bits zeroed
-            exp = bs + bytes((6 * len(payload) + 7) // 8 - len(bs))
+            exp = bs
             marks.append((len(ops) - 1, m_op(exp)))
         long_ops, long_marks = [], []
         if cfg != "noalloc":
@@ -973,6 +984,18 @@ class C15(MsgProp):
                     f["dac"], f["fid"] = dac, fid
                     ops.append(m_op(gen.full_payload(t, f) + bytes(rng.getrandbits(8) | 1 for _ in range(n))))
         yield ("bin:known-ids", ops)
+        # the per-type public decoders (op P) handed a binary message of ANOTHER type: each decoder reads its own fixed
+        # header, whatever the six type bits say; where implementation and model both report a message, identifiers and
+        # bytes are the same
+        ops = []
+        for t in (6, 8, 17, 1, 12):
+            for n in (0, 1, 5, 40):
+                f = gen.base_fields(t, rng, ais.LAYOUTS[t])
+                bs = gen.full_payload(t, f) + bytes(rng.getrandbits(8) for _ in range(n))
+                for t2 in (6, 8, 17):
+                    if t2 != t:
+                        ops.append(f"P {t2} {hexs(bs)}")
+        yield ("foreign-decoder", ops)
 
 
 # ---------------------------------------------------------------- C16
@@ -1182,6 +1205,19 @@ class C03:
                 pos = rng.randrange(n + 1)
                 ops.append(f"U {rng.randrange(6)} {(s[:pos] + sq + s[pos:]).hex()}")
         yield ("utf8-sequence", ops)
+        # what surrounds a payload in a file or on a wire is not part of it: line ends, blanks, quotes, separators, a
+        # checksum suffix, a BOM - before or after alphabet strings of every length class, singly and in pairs
+        ops = []
+        affixes = [b"\r\n", b"\n", b"\r", b"\n\r", b"\r\n\r\n", b" ", b"  ", b"\t", b"\x00", b"\x00\x00", b",", b",0", b"*", b"*00", b",0*5C", b'"', b"'",
+                   b"\xef\xbb\xbf", b"\xff", b"!", b"$", b"\\", b"=", b"==", b"\x1a", b"\x7f"]
+        for af in affixes:
+            for n in (0, 1, 2, 4, 5, 28):
+                body = gen.random_alphabet(rng, n)
+                ops.append(f"U {rng.randrange(6)} {(body + af).hex()}")
+                ops.append(f"U {rng.randrange(6)} {(af + body).hex()}")
+            ops.append(f"U 0 {(af + b'9qKr' + af).hex()}")
+            ops.append(f"U 0 {(b'9q' + af + b'Kr').hex()}")
+        yield ("affixes", ops)
 
     def extra_run(self, rep, tier, cfgs):
         """Very long strings (around and beyond 2^16 bits / bytes of output: 10 922, 21 845, 43 690, 65 536 ...
